@@ -20,6 +20,7 @@ var errE2EClosed = errors.New("use of closed network connection")
 
 type e2eConn struct {
 	name    string // remote address (default 198.51.100.9:50123)
+	chunk   int    // at most this many bytes per Read (0: whatever is there)
 	mu      sync.Mutex
 	in      []byte
 	rpos    int
@@ -101,7 +102,11 @@ func (c *e2eConn) Read(p []byte) (int, error) {
 			c.mu.Unlock()
 			return 0, e2eTimeout{}
 		case c.rpos < len(c.in):
-			n := copy(p, c.in[c.rpos:])
+			rest := c.in[c.rpos:]
+			if c.chunk > 0 && len(rest) > c.chunk {
+				rest = rest[:c.chunk]
+			}
+			n := copy(p, rest)
 			c.rpos += n
 			c.mu.Unlock()
 			return n, nil
